@@ -1,0 +1,8 @@
+//go:build verif
+
+package pool
+
+// PeerAddrForVerif exposes getPeerAddr: the address a request for the given node id is forwarded to.
+func (p *PeerPool) PeerAddrForVerif(nodeID string) string {
+	return p.getPeerAddr(nodeID)
+}
